@@ -87,6 +87,8 @@ def check(ctx):
     check_runner_up_filter(ctx)
     check_width(ctx)
     check_csv(ctx, produced)
+    from .C10 import check_node_identity
+    check_node_identity(ctx, ('utils.output_utils',), floor=1)
 
 
 # ----------------------------------------------------------------------
